@@ -306,3 +306,15 @@ Proof.
   destruct (length xs <=? length (drifts km))%nat; simpl; [discriminate|].
   destruct (lu_solve _ _); simpl; [reflexivity | discriminate].
 Qed.
+
+(* the offset used at evaluation must be the one used at storage: with another offset (the seeded defect of
+   Kriging3D::operator(), b2 instead of b3) a true solution no longer interpolates.  Exact witness in 1D. *)
+Lemma offsets_must_agree :
+  exists a b b' xs fs coef,
+    Qsolves (wmatrix Q Q 0 qsub (default1D 0) (affine a b) xs) (krhs Q Q 0 (default1D 0) fs) coef /\
+    ~ interpolates Q Q Qeq (weval Q Q 0 qadd Qmult qsub (default1D 0) (affine a b) (affine a b') xs coef) xs fs.
+Proof.
+  exists (1 # 2), 0, 1, [0; 1; 2], [0; 1; 2], [0; 0; 0; 0; 2]. split.
+  - unfold Qsolves, solves. repeat constructor; vm_compute; reflexivity.
+  - intro H. specialize (H 0%nat 0 0 eq_refl eq_refl). vm_compute in H. discriminate.
+Qed.
